@@ -325,6 +325,11 @@ func cliAutoScript(t *testing.T, r *Rng, s *Stream) {
 			var nctx context.Context
 			nctx, cancelClient = context.WithCancel(ctx)
 			dx.ResumeClient(nctx)
+			if dx.VerifState() == dclient.VerifStateRebinding { // a held lease is re-validated: which deadlines are in force now?
+				now := time.Now() // virtual clock: no time has passed since ResumeClient read it
+				t1, t2, tx := dx.VerifDeadlines()
+				a.eff(fmt.Sprintf("rs:%d:%d:%d", int64(t1.Sub(now)), int64(t2.Sub(now)), int64(tx.Sub(now))))
+			}
 		}
 	}()
 	go func() { // mclient.monitor
@@ -443,6 +448,13 @@ func cliAutoScript(t *testing.T, r *Rng, s *Stream) {
 		}
 	}
 	for _, e := range effs {
+		if strings.HasPrefix(e, "rs:") { // link-up with a held lease: early re-validation = a short window for all three deadlines
+			var t1, t2, tx int64
+			fmt.Sscanf(e, "rs:%d:%d:%d", &t1, &t2, &tx)
+			if tx > 5e9 || t1 > tx || t2 > tx {
+				fail("linkup-no-early-revalidation", "a link-up event did not force early re-validation of the held lease (the old deadlines stay in force)", e)
+			}
+		}
 		if strings.HasPrefix(e, "dl:") {
 			var t1, t2, tx int64
 			fmt.Sscanf(e, "dl:%d:%d:%d", &t1, &t2, &tx)
